@@ -94,7 +94,9 @@ CLAIMED = {
              "aliased size), Normalize (res=a), RingMaps (in-place cycle walks), Pointwise (r=a, r=b with block-wise load/store). "
              "Each aliased case is replayed on the real code and again with the aliasing removed on identical operand values "
              "(both must equal the model, hence each other); programs of the API machine with in-place inverse DFT and aliased "
-             "coefficient/big operations are replayed lifted; 26 pointwise kernels (reim/cplx/reim4; ref, FMA, SSE, AVX-512, "
+             "coefficient/big operations are replayed lifted; IdftOverlay.tla models the inverse DFT over its own input in units of "
+             "big limbs (a DFT limb is 1 unit for FFT64, 2 for NTT120): every read must see the caller's bytes, and its 72 shapes are "
+             "replayed on both module types against a separate output; 26 pointwise kernels (reim/cplx/reim4; ref, FMA, SSE, AVX-512, "
              "dispatch, simple) with r=a / r=b on random integer-valued data are recorded and validated by TLC.",
         design_ref="DESIGN.md section 4 C13",
         note="Trusted: TLC. Partial overlaps are outside the property's domain and are not generated. Integer-valued data make "
@@ -187,11 +189,13 @@ CLAIMED = {
              "double->torus double. Every conversion x {reference, AVX variants called directly, dispatch under both CPU masks, "
              "*_simple} x m = 1..64 (thorough 1024) x divisors 2^j x log2overhead 0..48 x bounds is driven with magnitudes at and "
              "next to the domain boundaries, halves +- 1 and 2 ulp, exact ties, INT32_MIN/MAX and random values; TLC judges every "
-             "element from the logged IEEE / two's-complement words.",
+             "element from the logged IEEE / two's-complement words. ToyFloat.tla states the mantissa tricks of the accelerated kernels "
+             "(to_znx64 bnd50, from_znx64 bnd50, to_tnx) in a toy binary format with a P-bit significand and round-to-nearest-even, and TLC "
+             "checks them exhaustively over every toy value of the documented window (P = 8; thorough P = 7..11).",
         design_ref="DESIGN.md section 4 C14",
         note="Trusted: TLC + Wide/Dyadic. 2^64 inputs per conversion are sampled, boundary directed. Exact ties accept either "
              "neighbour; for the torus conversion the tolerance also applies to the choice of the nearest integer.",
-        technique="TLA+ contracts on exact dyadic arithmetic + TLC trace validation of recorded conversions"),
+        technique="TLA+ contracts on exact dyadic arithmetic + TLC trace validation of recorded conversions + exhaustive TLC evaluation of the mantissa tricks in a toy float format"),
     "C17": dict(
         category="model_checking",
         text="Reim4.tla writes the block extraction (single, contiguous rows, strided rows), block save and interleaved-complex <-> "
@@ -228,7 +232,8 @@ CLAIMED = {
         text="Extents.tla holds the *_tmp_bytes / bytes_of_* formulas and write sets; the code-shaped machines carry a ghost for any "
              "access outside the declared extents and a scratch high-water mark, and TLC checks them on exhaustive boxes that "
              "include every zero size (Vmp, Normalize, LimbLoops, RingMaps). On the real library: the values reported by every "
-             "*_tmp_bytes / bytes_of_* function over a box of shapes and both module types are validated by TLC against Extents.tla; "
+             "*_tmp_bytes / bytes_of_* function over a box of shapes and both module types are validated by TLC against Extents.tla, "
+             "as is the layout of the table objects with work buffers (table needed by the schedule, buffers disjoint, aligned, inside the block); "
              "the allocator calls inside new_*/delete_* scopes of every object family (static library, malloc/calloc/aligned_alloc/"
              "realloc/free diverted at link time) are validated by the ledger specification AllocLedgerTrace.tla (frees hit live "
              "blocks only, every scope ends empty); TLC-generated cases and programs are replayed with exact-size heap buffers, "
@@ -246,16 +251,18 @@ CLAIMED = {
              "(leaves of 16/8/4/2, breadth-first radix-4 passes with an initial radix-2 pass for odd log2 m, recursive halving, "
              "twiddle exponents as the fill_* functions compute them) as a symbolic machine over exponents of w = exp(2 pi i/4m), "
              "and TLC checks one monomial per (output, input) and output j = evaluation at w^(1+4 bitrev j) for m = 1..256 in both "
-             "regimes; FftInverse.tla transcribes reim_ifft_ref.c and TLC checks inverse o forward = m * identity (m <= 64). The code is bound to it by impulse probes of all 16 implementations (reference, AVX2/FMA drivers with the "
+             "regimes (thorough: up to m = 2048), for the reim layout and for the cplx layout (cplx_fft_ref.c: radix-2 passes up to m = 8, own table "
+             "layout); FftInverse.tla transcribes reim_ifft_ref.c and cplx_ifft_ref.c and TLC checks inverse o forward = m * identity "
+             "(m <= 64, both layouts, both regimes). The code is bound to it by impulse probes of all 16 implementations (reference, AVX2/FMA drivers with the "
              "assembly leaves, dispatch under both CPU masks, *_simple; reim and cplx; forward and inverse) for every m = 1..4096 and "
              "65536 (thorough: every m), each output classified to a 4m-th root of unity and the exponents validated by TLC, plus "
-             "bit-identical repeated calls and unchanged table bytes; the real tables (m<=2048) are compared with the table "
-             "generated from the schedule (advisory). The error-norm clause is MEASURED (constants, resonant, wide dynamic range, "
+             "bit-identical repeated calls, unchanged table bytes and transforms run inside the library-owned work buffers "
+             "(*_precomp_get_buffer) equal to those in caller arrays; the real forward and inverse tables of both layouts (m<=2048, 17812 entries) "
+             "are compared with the tables generated from the schedules (advisory). The error-norm clause is MEASURED (constants, resonant, wide dynamic range, "
              "random inputs against an 80-bit long double evaluation of the documented map) and the bound is evaluated by TLC.",
         design_ref="DESIGN.md section 4 C06, section 6",
         note="TLA+ has no reals: the norm clause is measured, not derived (level 'other'). Trusted: TLC, numpy long double reference "
-             "(64-bit significand, about 2000x finer than the bound), mpmath for the table check. The cplx schedules "
-             "are not transcribed; they are bound by probes only. Observed errors are about 10% of the bound.",
+             "(64-bit significand, about 2000x finer than the bound), mpmath for the table check. Observed errors are about 10% of the bound.",
         technique="TLA+ symbolic schedule model checked with TLC + TLC trace validation of impulse-response exponents + measured error norm judged by TLC"),
 }
 
